@@ -195,6 +195,10 @@ impl Storable for AnnotationDataSet {
                     .ok_or_else(|| {
                         StamError::HandleError("AnnotationData refers to a key that does not exist")
                     })?;
+                if data.id().is_none() && self.data_by_value(data.key, data.value()).is_some() {
+                    //data without identifier is shared: the same key and value is here already
+                    continue;
+                }
                 self.insert(data.unbind())?;
             }
         }
